@@ -36,6 +36,7 @@ var (
 type RunRecord struct {
 	Run        int          `json:"run"`
 	Flavor     string       `json:"flavor,omitempty"`
+	World      string       `json:"world,omitempty"`
 	Reason     string       `json:"reason"`
 	Steps      int          `json:"steps"`
 	VirtualNS  int64        `json:"virtual_ns"`
@@ -93,7 +94,7 @@ func watchdog(cur string) {
 }
 
 func executePlan(t *testing.T, p *Plan, keepLog bool) *RunRecord {
-	rec := &RunRecord{Run: p.Run, Flavor: p.Flavor}
+	rec := &RunRecord{Run: p.Run, Flavor: p.Flavor, World: worldTag(p)}
 	start := time.Now()
 	cryptotest.SetGlobalRandom(t, Mix(p.Seed, uint64(p.Run), 0xc4))
 	func() {
@@ -113,6 +114,30 @@ func executePlan(t *testing.T, p *Plan, keepLog bool) *RunRecord {
 	}()
 	rec.WallUS = time.Since(start).Microseconds()
 	return rec
+}
+
+// worldTag names which components of a run are real code and which are scripted, for the
+// evidence file: the world, plus what stands on the client and the server side of it.
+func worldTag(p *Plan) string {
+	tag := p.World
+	if tag == "srv" {
+		if p.Cfg.Nonce != "" {
+			tag = "srv-handlers"
+		}
+		if p.Cfg.Listener == "tcp" || p.Cfg.Extra["tcp_peers"] == 1 {
+			tag += "+tcp"
+		}
+		for _, c := range p.Clients {
+			if c.Kind == "real" {
+				tag += "+realclient"
+				break
+			}
+		}
+	}
+	if os.Getenv("VERIF_RACEMODE") == "1" {
+		tag += "+free"
+	}
+	return tag
 }
 
 func fillRecord(rec *RunRecord, k *Kernel, reason string) {
